@@ -110,6 +110,38 @@ CHECKS = {
         "(1e-12 relative) with the model fed the run's own K_m, Lambda_m / rate matrix / Redfield part. Modified Redfield and "
         "TDRedfieldFoerster cannot be built on the pinned tree (TypeError / not offered) and are counted as unavailable, not judged.",
    design="7/C01", technique="Coq proof (ring algebra over an abstract *-ring, sums by induction) + in-Coq differential correspondence (exact on Gaussian integers, 1e-12 end to end)"),
+ "C03": dict(
+   text="Proved in Coq: for EVERY number of molecules, every level structure and every multiplicity the signature enumeration "
+        "(elsignatures/_add_excitation/allstates) is complete, duplicate free and ordered by band; which_band is the excitation "
+        "count; Nb adds up; for two-level molecules the explicit order (ground, singles in site order, pairs lexicographic) and "
+        "Nb = [1, N, N(N-1)/2]; over any commutative ring H is exactly the Frenkel matrix (diagonal = sum of the energies of the "
+        "occupied levels, one-excitation-move elements = J_kl, every other element incl. between bands = 0), real symmetric; D obeys "
+        "the site-dipole selection rule (adjacent bands only); relabelling the molecules by any permutation gives the matrices "
+        "conjugated by a permutation of the state indices; the dipole-dipole expression equals the point-dipole formula over any "
+        "field (n a unit vector, symmetric in the molecules) and its prefactor is J2int times the SI one for Debye/Angstrom. "
+        "Validated only: equality of spectrum/dipole strengths under relabelling through eigh (the theorem gives the permutation "
+        "similarity), units independence of built matrices (rests on C05; monitored 1e-12), numeric value of the prefactor vs CODATA.",
+   note=TB + "All C03 theorems closed under the global context. Tie: real Aggregate.build runs (N<=6, mult 0-2, integer parameters, "
+        "three coupling input modes) with elsigs/which_band/Nb/H/DD/TrDMOp compared by = inside Coq; permuted molecule lists; builds "
+        "under unit contexts (1e-12); raw elsignatures calls up to 4 levels; dipole-dipole geometries (1e-12, sqrt an oracle with "
+        "RR^2 = R.R monitored). Multi-level sites: enumeration only (matrix elements with sqrt factors transcribed, not tied); "
+        "fem_full not covered; asymmetric coupling matrices are refused by the code and outside the quantifier.",
+   design="7/C03", technique="Coq proof (induction over the level-by-level generator, lia/nia, ring over an abstract *-ring, field over an abstract field) + exact in-Coq correspondence"),
+ "C10": dict(
+   text="Proved in Coq: for every list of level counts the vibrational signatures (numpy.ndindex) are complete, duplicate free, "
+        "row-major ordered and prod(nmax) in number; Ntot = sum over electronic states of prod(nmax) with the per-electronic-state "
+        "block structure of the state list; over any ring every Hamiltonian and dipole element between vibronic states equals the "
+        "electronic (C03) element times the product over modes of Franck-Condon table entries, the diagonal is vibrational quanta "
+        "plus electronic energy, and overlaps within one electronic state are Kronecker deltas when FC(0) is the identity. "
+        "Validated only (first clause of the property): that the Franck-Condon tables follow the displaced-oscillator model - "
+        "Poisson law e^-S S^n/n!, Laguerre closed form, orthogonality (<= 1e-14 on S in [0,4]) - the tables come from LAPACK eig + "
+        "exp of a 100x100 matrix and enter the model as oracle data.",
+   note=TB + "All C10 theorems closed under the global context. Tie: real Aggregate.build runs with 1-3 molecules, 0-2 modes, 1-3 "
+        "levels per mode (Ntot <= 36 quick / 60 thorough): state list, Nb, diagonal of H exact; off-diagonal H, DD and FC products "
+        "within 1e-12 relative with the model over Q fed the real parts of the implementation's own FC tables (imaginary parts <= "
+        "1e-12 monitored); raw vsignatures cases exact. Full vibrational space only: the truncated generators (vibgen_approx) raise "
+        "AttributeError (numpy.int) on the pinned NumPy and are excluded by the property.",
+   design="7/C10", technique="Coq proof (induction over mode lists, ring over an abstract *-ring with the FC table as a Section variable) + in-Coq correspondence (exact state lists, 1e-12 matrix elements)"),
 }
 NOT_YET = {}
 def main():
